@@ -64,12 +64,20 @@ pub fn to_raw(d: &DFA) -> RawDfa {
     }
 }
 
-/// Rebuild a DFA around borrowed `'static` tables. The inner vectors alias the
-/// statics and must never be dropped or mutated: callers `mem::forget` the
-/// result. The only loop is over the rows of `matches`.
+/// One row of the match table, aliasing a static.
+pub fn row(r: &'static [u32]) -> Vec<PatternID> {
+    unsafe {
+        Vec::from_raw_parts(r.as_ptr() as *mut PatternID, r.len(), r.len())
+    }
+}
+
+/// Rebuild a DFA around borrowed `'static` tables, loop free (the generated
+/// code builds `matches` from a `vec![row(..), ..]` literal). The inner
+/// vectors alias the statics and must never be dropped or mutated: callers
+/// `mem::forget` the result.
 pub fn from_parts(
     trans: &'static [u32],
-    matches: &'static [&'static [u32]],
+    m: Vec<Vec<PatternID>>,
     pattern_lens: &'static [u32],
     match_kind: u8,
     state_len: usize,
@@ -91,17 +99,6 @@ pub fn from_parts(
             trans.len(),
         )
     };
-    let mut m: Vec<Vec<PatternID>> = Vec::with_capacity(matches.len());
-    for row in matches {
-        let r: Vec<PatternID> = unsafe {
-            Vec::from_raw_parts(
-                row.as_ptr() as *mut PatternID,
-                row.len(),
-                row.len(),
-            )
-        };
-        m.push(r);
-    }
     let pl: Vec<SmallIndex> = unsafe {
         Vec::from_raw_parts(
             pattern_lens.as_ptr() as *mut SmallIndex,
